@@ -23,11 +23,12 @@ EXTENDS Naturals, Sequences, FiniteSets, TLC
 
 CONSTANTS Threads,      \* thread ids (positive integers)
           Recs,         \* recorder ids (positive integers); 0 = no recorder
-          MaxOps,       \* scope operations per thread
+          MaxOps,       \* [Threads -> Nat]: scope operations per thread
           MaxDepth,     \* guards alive at once per thread
           MaxCatch,     \* catch_unwind frames open at once per thread
           FormIds,      \* macro call forms used by Emit (subset of DOMAIN FormTable)
-          Discipline    \* "any": guards may end in any order / be forgotten; "lifo": only innermost-first
+          Discipline,   \* "any": guards may end in any order; "lifo": only innermost-first, never forgotten
+          Forgetting    \* BOOLEAN: mem::forget(guard) occurs (only with Discipline = "any")
 
 None == 0
 
@@ -144,7 +145,7 @@ Expand(f) ==
      unit |-> row.un, desc |-> row.ds]
 
 -----------------------------------------------------------------------------
-RemoveAt(s, p) == [i \in 1..(Len(s) - 1) |-> IF i < p THEN s[i] ELSE s[i + 1]]
+DelAt(s, p) == [i \in 1..(Len(s) - 1) |-> IF i < p THEN s[i] ELSE s[i + 1]]
 
 Innermost(t) == IF live[t] = <<>> THEN None ELSE live[t][Len(live[t])].rec
 Clean(tl, lv) == tl = None /\ lv = <<>>
@@ -158,7 +159,7 @@ TopCatch(fr) == LET C == {i \in DOMAIN fr : fr[i] = "catch"} IN
 
 \* the guard at position p of gl ends (Drop for LocalRecorderGuard): write back prev
 EndGuard(s, p) == [tls  |-> s.live[p].prev,
-                   live |-> RemoveAt(s.live, p),
+                   live |-> DelAt(s.live, p),
                    off  |-> s.off \/ p # Len(s.live)]      \* offending: not the innermost live guard
 RECURSIVE Unwind(_, _)
 Unwind(s, k) == IF k = 0 THEN s ELSE Unwind(EndGuard(s, LastClosure(s.live)), k - 1)
@@ -166,7 +167,7 @@ Unwind(s, k) == IF k = 0 THEN s ELSE Unwind(EndGuard(s, LastClosure(s.live)), k 
 DevAfter(t, tl, lv, off) == IF Clean(tl, lv) THEN FALSE ELSE (dev[t] \/ off)
 
 Allowed(off) == Discipline = "any" \/ ~off
-Budget(t) == nops[t] < MaxOps
+Budget(t) == nops[t] < MaxOps[t]
 Tick(t) == nops' = [nops EXCEPT ![t] = @ + 1]
 
 Init ==
@@ -207,9 +208,9 @@ DropGuard(t, p) ==
 (* mem::forget(guard): the guard is gone, Drop never runs, the pointer stays *)
 Forget(t, p) ==
   /\ Budget(t) /\ p \in DOMAIN live[t] /\ live[t][p].kind = "guard"
-  /\ Allowed(TRUE)
-  /\ live' = [live EXCEPT ![t] = RemoveAt(@, p)]
-  /\ dev' = [dev EXCEPT ![t] = DevAfter(t, tls[t], RemoveAt(live[t], p), TRUE)]
+  /\ Allowed(TRUE) /\ Forgetting
+  /\ live' = [live EXCEPT ![t] = DelAt(@, p)]
+  /\ dev' = [dev EXCEPT ![t] = DevAfter(t, tls[t], DelAt(live[t], p), TRUE)]
   /\ last' = NoEmit /\ Tick(t)
   /\ UNCHANGED <<tls, frames, borrow, global, ever>>
 
